@@ -292,7 +292,7 @@ Example C12_rest_nonvacuous :
     (forall i o, TreeSpec.get (p_tree s) i = Some o -> o_opcode o <> opFreed -> opInfo (o_infoIndex o) <> None) /\
     rok (p_r s) /\ p_scopeStack s = [] /\ Inv (p_tables s) s /\
     glive g 0 /\ groot g 0 /\ is_sb s 0 /\ tyS NoX (p_tables s) (p_handle s) (p_tree s) g /\
-    TM2 (p_tree s) g /\ PEND s g /\
+    TM3 (p_tree s) g /\ PEND s g /\
     (forall i o, TreeSpec.get (p_tree s) i = Some o -> o_opcode o <> opFreed -> o_opcode o = aml_pOpIntNamePathOrMethodCall ->
                  exists tbl sl, o_value o = Some (VBytes tbl sl)) /\
     lp s + lp s * (8 * r_len (p_r s) + 3) + 4 <= InvalidIndex /\
@@ -304,7 +304,7 @@ Example C12_rest2_nonvacuous :
   exists (s : pstate) (g : ghost),
     R (p_tree s) g /\
     (forall i o, TreeSpec.get (p_tree s) i = Some o -> o_opcode o <> opFreed -> opInfo (o_infoIndex o) <> None) /\
-    rok (p_r s) /\ p_scopeStack s = [] /\ Inv (p_tables s) s /\ SH s g /\
+    rok (p_r s) /\ p_scopeStack s = [] /\ Inv (p_tables s) s /\ SH3 s g /\
     (forall i o, TreeSpec.get (p_tree s) i = Some o -> o_opcode o <> opFreed -> o_opcode o = aml_pOpIntNamePathOrMethodCall ->
                  exists tbl sl, o_value o = Some (VBytes tbl sl)) /\
     lp s + lp s * (8 * r_len (p_r s) + 3) + 4 <= InvalidIndex /\
@@ -319,7 +319,7 @@ Example C12_never_panics_nonvacuous :
     (forall i o, TreeSpec.get tree i = Some o -> o_opcode o <> opFreed -> opInfo (o_infoIndex o) <> None) /\
     glive g 0 /\ groot g 0 /\
     (exists o, TreeSpec.get tree 0 = Some o /\ o_opcode o = aml_pOpIntScopeBlock) /\
-    TM2 tree g /\
+    TM3 tree g /\
     (forall i o, TreeSpec.get tree i = Some o -> o_opcode o <> opFreed -> o_opcode o = aml_pOpIntNamePathOrMethodCall ->
                  exists tbl sl, o_value o = Some (VBytes tbl sl)) /\
     pool_ok [] tree /\
@@ -330,8 +330,7 @@ Example C12_never_panics_nonvacuous :
     match parseAML_body 200 (init_state tree [] 1 data) with Ok (b, s') => b = true /\ lp s' = 4 | _ => False end.
 Proof. exact parseAML_hyps_example. Qed.
 
-(** ---- the load sequence: the hypotheses of C12_parse_total_load_never_panics_mod ([SEQ]: the sizes and the Method residue at each
-    step) are satisfiable - two tables over the default scopes, Name(AAAA, One) and Scope(\_SB_) { Name(BBBB, Zero) }; both load
+(** ---- the load sequence: the hypotheses of C12_parse_total_load_never_panics ([SEQ]: the sizes at each step) are satisfiable - two tables over the default scopes, Name(AAAA, One) and Scope(\_SB_) { Name(BBBB, Zero) }; both load
     (outcome class 0), the pools hold 9 and 15 objects ---- *)
 Definition lx_p1 : list N := [0x08; 0x41; 0x41; 0x41; 0x41; 0x01].
 Definition lx_p2 : list N := [0x10; 0x0c; 0x5c; 0x5f; 0x53; 0x42; 0x5f; 0x08; 0x42; 0x42; 0x42; 0x42; 0x00].
@@ -344,25 +343,15 @@ Proof. vm_compute. reflexivity. Qed.
 Lemma lx_e2 : parseAML (p_tree lx_s1) [table_image lx_p1] 2 (table_image lx_p2) = Ok (true, lx_s2).
 Proof. vm_compute. reflexivity. Qed.
 
-Ltac lx_nomethod s :=
-  let g' := fresh "g" in let HR := fresh "HR" in let m := fresh "m" in let mo := fresh "mo" in let Hm := fresh "Hm" in let Hop := fresh "Hop" in
-  intros g' HR m mo Hm Hop; exfalso; revert m mo Hm Hop;
-  apply (pool_cases (p_tree s) (fun m mo => o_opcode mo = aml_pOpMethod -> False));
-  let n := fresh "n" in let o := fresh "o" in let Hn := fresh "Hn" in let Hop := fresh "Hop" in
-  intros n o Hn Hop;
-  do 16 (destruct n as [|n]; [vm_compute in Hn; first [discriminate | (inversion Hn; subst o; vm_compute in Hop; discriminate)]|]);
-  vm_compute in Hn; destruct n; discriminate.
 Ltac lx_fits := split; [split; [vm_compute; repeat constructor|vm_compute; discriminate]|vm_compute; discriminate].
 
 Example C12_load_sequence_nonvacuous :
-  SEQ ds_tree [] 1 [lx_p1; lx_p2] /\ fst (fst (load [lx_p1; lx_p2])) = 0.
+  INV ds_tree ds_ghost [] 1 /\ SEQ ds_tree [] 1 [lx_p1; lx_p2] /\ fst (fst (load [lx_p1; lx_p2])) = 0.
 Proof.
-  split; [|vm_compute; reflexivity].
+  split; [exact ds_INV|]. split; [|vm_compute; reflexivity].
   cbn [SEQ]. cbv zeta. split; [lx_fits|].
-  intros s E. rewrite lx_e1 in E. assert (Es : s = lx_s1) by congruence. subst s. clear E. split; [unfold RES; lx_nomethod lx_s1|].
-  split; [lx_fits|].
-  intros s E. change ([] ++ [table_image lx_p1]) with [table_image lx_p1] in E. change (1 + 1) with 2 in E.
-  rewrite lx_e2 in E. assert (Es : s = lx_s2) by congruence. subst s. clear E. split; [unfold RES; lx_nomethod lx_s2|exact I].
+  intros s E. rewrite lx_e1 in E. assert (Es : s = lx_s1) by congruence. subst s. clear E.
+  split; [lx_fits|]. intros s _. exact I.
 Qed.
 
 (** the hypotheses of C12_parse_total_partial_resolveMethodCalls_keeps_methods / _connectNonNamedObjArgs_keeps_methods are satisfiable by a
@@ -379,13 +368,3 @@ Example C12_keeps_methods_nonvacuous :
   match connectNonNamedObjArgs 10 0 mx_state with Ok (r, _) => r = ROk | _ => False end.
 Proof. exact mx_hyps. Qed.
 
-(** the size hypothesis [SEQ3] of C12_parse_total_load_never_panics_mod_deferred holds for the same two tables, and [INV3] holds for the
-    default scopes *)
-Example C12_load_sequence_deferred_nonvacuous :
-  INV3 ds_tree ds_ghost [] 1 /\ SEQ3 ds_tree [] 1 [lx_p1; lx_p2] /\ fst (fst (load [lx_p1; lx_p2])) = 0.
-Proof.
-  split; [exact ds_INV3|]. split; [|vm_compute; reflexivity].
-  cbn [SEQ3]. cbv zeta. split; [lx_fits|].
-  intros s E. rewrite lx_e1 in E. assert (Es : s = lx_s1) by congruence. subst s. clear E.
-  split; [lx_fits|]. intros s _. exact I.
-Qed.
